@@ -3,7 +3,7 @@ import re
 import vlib, gen_facts
 from props import codec_common as cc
 
-THEOREMS = ['C01_token_roundtrip', 'C01_tag_roundtrip', 'C01_int_value_roundtrip']
+THEOREMS = ['C01_token_roundtrip', 'C01_tag_roundtrip', 'C01_int_value_roundtrip', 'C01_section_step', 'C01_section_finish', 'C01_elem_step', 'C01_elem_finish', 'C01_group_roundtrip', 'C01_section_roundtrip', 'C01_roundtrip_explicit', 'C01_roundtrip', 'C01_roundtrip_by_type', 'C01_roundtrip_norm', 'C01_utest_wf', 'C01_roundtrip_utest', 'C01_roundtrip_utest_by_type']
 RT = re.compile(r'^wire=(\S+) dec=(H\[.*\] B\[.*\] T\[.*\]) re=(\S+)$')
 
 
